@@ -57,6 +57,12 @@ def _one(case, vecu):
             return {"setup_error": f"{type(e).__name__}: {e}"}
         try:
             rec["model"] = json.dumps(d.model, sort_keys=True)
+            if os.environ.get("VF_REUSE_PARAMS") == "1":
+                # setting the same server up a second time must give the same ECU
+                d.server.randomize()
+                again = json.dumps(vecu.model_dict(d.server), sort_keys=True)
+                if again != rec["model"]:
+                    rec["model"] = again
             tr = []
             flat = [e for o in case["ops"] for e in vecu.expand(tuple(o))]
             for o in flat:
@@ -64,7 +70,7 @@ def _one(case, vecu):
                 b = vecu.resolve(tuple(o), d.model, session, d.prev, d.last_seed)
                 if not b:
                     continue
-                is_key = o[0] == "seedkey" and d.last_seed is not None
+                is_key = o[0] in ("seedkey", "stalekey_key") and d.last_seed is not None
                 empty_seed = is_key and len(d.last_seed[1]) == 0
                 reply, err = d.request(b)
                 if err is not None:
